@@ -150,13 +150,11 @@ def electrostatic_potential(
     hartree_potential = np.sum(hartree_potential, axis=(0, 1))
 
     # silence warning for dividing by zero
-    old_settings = np.seterr(divide="ignore")
-    dist = np.sum((points[:, :, None] - nuclear_coords.T[None, :, :]) ** 2, axis=1) ** 0.5
-    external_potential = nuclear_charges[None, :] / dist
-    # zero out potentials of elements that are too close to the nucleus
-    external_potential[dist < threshold_dist] = 0
-    # restore old settings
-    np.seterr(**old_settings)
+    with np.errstate(divide="ignore"):
+        dist = np.sum((points[:, :, None] - nuclear_coords.T[None, :, :]) ** 2, axis=1) ** 0.5
+        external_potential = nuclear_charges[None, :] / dist
+        # zero out potentials of elements that are too close to the nucleus
+        external_potential[dist < threshold_dist] = 0
     # sum over potentials for each dimension
     external_potential = -np.sum(external_potential, axis=1)
 
